@@ -73,6 +73,29 @@ example : isInfix [0xC5, 0xBF] (ofStr "<rpc-reply message-id=\"101\">") = false 
     firstId (ofStr "<rpc-reply message-id=\"101\">") = some 101 := by
   constructor <;> decide +kernel
 
+/-- the full claim about the captured id: `getID(messageID.FindSubmatch(b))` -/
+def FirstIdIsGroup : Prop :=
+  ∀ b : Bytes, firstId b = (findGroup Gen.Rx.Netconf.messageID b 1).map atoiClamp
+
+/-- The id `firstId` returns is the engine's capture group 1 of the leftmost match, read as a
+decimal (`atoiClamp`), for every text without `ſ`. Captures are covered by soundness of the engine
+against the capture-threading relation `Rx.MatchesC`; for this pattern the decomposition of a
+match is forced, so the group span is determined. -/
+theorem firstId_eq_findGroup_partial (b : Bytes) (hb : isInfix [0xC5, 0xBF] b = false) :
+    firstId b = (findGroup Gen.Rx.Netconf.messageID b 1).map atoiClamp :=
+  firstId_eq_findGroup b (NoLongS.of_isInfix hb)
+
+example : findGroup Gen.Rx.Netconf.messageID (ofStr "<rpc-reply Message-ID=\"0042\" x=\"7\">") 1
+    = some [48, 48, 52, 50] := by decide +kernel
+
+/-- Engine soundness with captures: whatever `find` reports (span and capture table) has a
+derivation in the capture-threading relation. -/
+theorem find_sound_captures (re : Re) (s : Bytes) (a e : Nat) (c : Caps)
+    (h : find re s = some (a, e, c)) :
+    ∃ p q, RuneReach (Pos.start s) p ∧ p.Of s ∧ q.Of s ∧ p.off = a ∧ q.off = e ∧
+      MatchesC re p [] q c :=
+  find_soundC h
+
 /-- The side condition cannot be dropped: the regex (as Go parses it) accepts `meſſage-id="7"`, the
 scanner does not. The model and the code differ on such texts (no NETCONF server sends them). -/
 theorem firstIdIsMatch_fails : ¬ FirstIdIsMatch := by
